@@ -322,6 +322,42 @@ pub fn run_c20(ctx: &Ctx) -> Report {
     let mut rep = Report::new("C20", "generated programs ending in print-size / print-function / extract / run reports, executed (i) twice in this process and (ii) in child processes with different environments, working directories, argument padding (stack shift) and ASLR; every command output and the run reports (timings dropped) compared byte for byte. non-trivial = the program prints >= 2 rows/terms whose order could differ (distinct by program)");
     let mut rng = Rng::new(ctx.seed ^ 0xC20);
     let n = ctx.n(40, 600);
+    // directed family: OVERLAPPING combined rulesets — a ruleset reachable along two paths of the combination, so one
+    // iteration is handed the same rule more than once; each rule appends rows / creates terms, so the order in which the
+    // rules of an iteration run is visible in print-function, extract and the run report
+    for pi in 0..ctx.n(16, 160) {
+        let k = 3 + rng.below(4);
+        let mut chunks: Vec<String> = vec!["(sort E)\n(constructor Mk (i64) E)\n(relation src (i64))\n(relation Out (i64))\n(relation Made (E))".into()];
+        chunks.push((0..1 + rng.below(3)).map(|i| format!("(src {i})")).collect::<Vec<_>>().join("\n"));
+        for i in 0..k { chunks.push(format!("(ruleset r{i})\n(rule ((src x)) ((Out (+ (* x 10) {i})) (Made (Mk (+ (* x 10) {i})))) :ruleset r{i})")); }
+        // two overlapping combinations and their combination
+        let pick = |rng: &mut Rng| -> Vec<usize> { let mut v: Vec<usize> = (0..k).filter(|_| rng.chance(1, 2)).collect(); if v.is_empty() { v.push(rng.below(k)); } v };
+        let (a, mut b) = (pick(&mut rng), pick(&mut rng));
+        if !b.iter().any(|x| a.contains(x)) { b.push(a[0]); }
+        let names = |v: &[usize]| v.iter().map(|i| format!("r{i}")).collect::<Vec<_>>().join(" ");
+        chunks.push(format!("(unstable-combined-ruleset ca {})", names(&a)));
+        chunks.push(format!("(unstable-combined-ruleset cb {})", names(&b)));
+        let rest: Vec<usize> = (0..k).filter(|i| !a.contains(i) && !b.contains(i)).collect();
+        chunks.push(format!("(unstable-combined-ruleset everything ca {} cb)", names(&rest)));
+        chunks.push(format!("(run-schedule (repeat {} everything))", 1 + rng.below(2)));
+        chunks.push("(print-size)".into()); chunks.push("(print-function Out 100)".into()); chunks.push("(print-function Made 100)".into()); chunks.push("(print-function Mk 100)".into());
+        chunks.push("(extract (Mk 0) 3)".into()); chunks.push("(print-stats)".into());
+        rep.evaluations += 1;
+        let job = json!({"threads": 1, "chunks": chunks});
+        let a1 = child::run_job(&job); let b1 = child::run_job(&job); let c1 = child::run_job(&job);
+        if a1["outcomes"].as_array().map(|o| o.iter().any(|x| x.as_str() != Some("ok"))).unwrap_or(true) { rep.violate("correspondence", "c20-setup", format!("directed combined-ruleset program failed: {}", a1), json!({"program": chunks.join("\n")})); continue; }
+        rep.note_nontrivial(&chunks); rep.count("overlapping_combined_ruleset_programs", 1);
+        if a1 != b1 || a1 != c1 { rep.violate("property", "c20-in-process", "in-process runs of the same program (overlapping combined rulesets) give different outputs".into(), json!({"program": chunks.join("\n")})); continue; }
+        if pi % 2 == 0 {
+            for (kx, env) in [vec![("FOO", "1")], vec![("RUST_BACKTRACE", "1"), ("LANG", "C")]].iter().enumerate() {
+                rep.count("child_processes_run", 1);
+                match child::spawn(&job, env, kx * 5) {
+                    Ok(c) => if c != a1 { rep.violate("property", "c20-across-processes", format!("a child process (env #{kx}) gives different outputs from the in-process run (overlapping combined rulesets)"), json!({"program": chunks.join("\n")})); },
+                    Err(e) => rep.violate("property", "c20-child-crash", e, json!({"program": chunks.join("\n")})),
+                }
+            }
+        }
+    }
     for pi in 0..n {
         let sig = pgen::gen_sig(&mut rng);
         let cmds = pgen::gen_program(&mut rng, &sig, &GenOpts { faults: false, subsume: true, delete: true, pushpop: true, ncmds: 14 });
